@@ -177,7 +177,7 @@ async fn run_case(line: &str, case_no: usize) -> String {
     let (channel, task) = rodbus::client::create_rtu_client_task(
         link.to_str().unwrap(),
         SerialSettings::default(),
-        4,
+        64, // never fills: a full queue would block the script's own enable / disable calls while the task is held
         retry,
         DecodeLevel::nothing(),
         Some(Box::new(Gate {
@@ -245,6 +245,10 @@ async fn run_case(line: &str, case_no: usize) -> String {
                         let r = ch.read_holding_registers(param, AddressRange::try_from(id as u16, 1).unwrap()).await;
                         ctl2.lock().unwrap().completions.push((id, class(&r).to_string()));
                     });
+                    // let the spawned call reach the queue before the script goes on (keeps the script order)
+                    for _ in 0..4 {
+                        tokio::task::yield_now().await;
+                    }
                 }
                 true
             }
